@@ -113,6 +113,20 @@ def run(ctx, br):
             pb = prefixed(b, rng)
             c5reqs.append({"rx": rxname, "bad": pb.hex()})
             c5meta.append((rxname, pb))
+    # large but legal messages: a request whose REPLY cannot fit the server's bounded output (an unknown method
+    # with a name of several hundred KB is echoed twice in the UNKNOWN_METHOD exception), very long header values
+    def thrift_call(name):
+        return struct.pack(">I", 0x80010001) + struct.pack(">I", len(name)) + name + struct.pack(">I", 0) + b"\x00"
+    for size in ([600000] if quick else [300000, 520000, 600000, 900000]):
+        hdr = hc.ref_marshal([(b"_opid", b"7"), (b"_cid", b"big")])
+        body = hdr + thrift_call(b"m" * size)
+        for rxname in ("nats_server", "http"):
+            c5reqs.append({"rx": rxname, "bad": (struct.pack(">I", len(body)) + body).hex()})
+            c5meta.append((rxname, struct.pack(">I", len(body)) + body))
+        body = hc.ref_marshal([(b"_opid", b"7"), (b"big", b"v" * size)]) + thrift_call(b"ping")
+        for rxname in ("nats_server", "nats_client", "nats_scope"):
+            c5reqs.append({"rx": rxname, "bad": (struct.pack(">I", len(body)) + body).hex()})
+            c5meta.append((rxname, struct.pack(">I", len(body)) + body))
     for _ in range(20 if quick else 300):
         b = hc.rand_bytes(rng, rng.randrange(0, 40), 0)
         c5reqs.append({"rx": "http_raw", "bad": b.hex()})
